@@ -41,9 +41,11 @@ TECHNIQUE = ("Lean 4 proofs (flood-fill invariant, counting invariant of the lay
              "rank) + differential correspondence with the real precompute (inline, real thread pool, coptrs stand-in) + networkx oracle")
 LEAN_PROPS = ["EkwVerif.Props.C16"]
 LEAN_DRIVERS = ["C16"]
-RULE = ("random jobs: 0-40 tasks (thorough: up to 60), 1-6 planted components of shapes chain / diamond / fan-in / fan-out / layered random / ladder / "
-        "isolated, plus random extra forward edges, multi-edges between the same pair (same or different output, different sink inputs), 1-3 outputs "
-        "per task, kw and positional (also negative) sink inputs, task names of three styles (short tags, arbitrary strings incl. dots / blanks / "
+RULE = ("random jobs: 0-40 tasks (thorough: up to 60) plus big jobs of 80-150 tasks, most with a directed path of 61-110 tasks and one of 130-140 "
+        "(depth and distances beyond 60 / beyond 127): quick 1 of 80-82 tasks compared with the model and 2 judged by the oracle and re-run through the "
+        "real pool only (the interpreted model needs minutes beyond ~100 tasks), thorough 4 + 30; 1-6 planted components of shapes chain / diamond / fan-in / fan-out / layered random / ladder / "
+        "isolated, plus random extra forward edges, multi-edges between the same pair (same or different output, different sink inputs), 0-6 declared "
+        "outputs per task (1 in 13 tasks has an EMPTY output_schema, producers too: their edges then name an undeclared output), kw and positional (also negative) sink inputs, task names of three styles (short tags, arbitrary strings incl. dots / blanks / "
         "non-ASCII / the empty name / shared prefixes, hex words) uncorrelated with topology; 14% with a sink input fed by 2-4 edges (other task, other "
         "output of the same task, exact copy); 6% outside the quantifier (edge from / to a non-task, cycle, self loop) and 2.5% raw edges with "
         "both/neither sink input, compared with the model only; 10 many-component jobs (6-12 components of 8-20 tasks) three times each through the "
@@ -318,7 +320,7 @@ def gen_case(rng, max_tasks):
     # split n into ncomp parts >= 1
     cuts = sorted(rng.sample(range(1, n), ncomp - 1)) if ncomp > 1 else []
     sizes = [b - a for a, b in zip([0] + cuts, cuts + [n])]
-    tasks = [[t, ["o%d" % i for i in range(rng.choice([1, 1, 1, 2, 3]))]] for t in names]
+    tasks = [[t, _outputs(rng)] for t in names]       # 0-6 declared outputs (0: an EMPTY output_schema, also for producers)
     outs = dict((t, o) for t, o in tasks)
     pairs = []
     base = 0
@@ -351,7 +353,7 @@ def gen_case(rng, max_tasks):
         else:
             kw, ps = None, i
         # (rarely) an output name the source task does not declare: nothing in JobInstance forbids it, edge_o is keyed by it
-        out = rng.choice(outs[a]) if rng.random() > 0.02 else "undeclared"
+        out = rng.choice(outs[a]) if (outs[a] and rng.random() > 0.02) else "undeclared"
         edges.append({"src": a, "out": out, "dst": b, "kw": kw, "ps": ps})
     # a task nobody consumes from may have an empty output schema
     producers = {e["src"] for e in edges}
@@ -359,6 +361,50 @@ def gen_case(rng, max_tasks):
         if t[0] not in producers and rng.random() < 0.08:
             t[1] = []
     return {"tasks": tasks, "edges": edges}, {"shapes": shapes, "multi": multi, "names": style}
+
+
+def _outputs(rng):
+    """declared outputs of a task: mostly 1, up to 6, sometimes none at all (an EMPTY output_schema)"""
+    k = rng.choice([1, 1, 1, 1, 1, 2, 2, 3, 3, 4, 5, 6, 0])
+    return ["o%d" % i for i in range(k)]
+
+
+def gen_big_case(rng, n_lo=80, n_hi=150, deep=None, spine=None):
+    """A job of 80-150 tasks; `deep`: one component with a spine (directed path) of 61-110 tasks, so depth > 60 and
+    distances / values well beyond anything a small table, a signed byte or a shallow recursion could hold; the other
+    tasks hang off the spine or feed it (edges only forward in a hidden order: acyclic), a few stay isolated.
+    Outputs per task 0-6 (tasks with an EMPTY output_schema also as producers: their edges name an undeclared output)."""
+    n = rng.randint(n_lo, n_hi)
+    if deep is None:
+        deep = rng.random() < 0.7
+    names, style = _names(rng, n)
+    rng.shuffle(names)
+    tasks = [[t, _outputs(rng)] for t in names]
+    outs = dict((t, o) for t, o in tasks)
+    order = list(names)
+    rng.shuffle(order)                                   # hidden topological order
+    L = rng.randint(61, min(n - 5, 110)) if deep else rng.randint(3, 25)
+    if spine is not None:
+        L = rng.randint(min(spine[0], n - 5), min(spine[1], n - 5))      # e.g. 130-140: distances beyond a signed byte
+    spine_pos = sorted(rng.sample(range(n), L))
+    pairs = [(order[a], order[b]) for a, b in zip(spine_pos, spine_pos[1:])]
+    on_spine = set(spine_pos)
+    for pos in range(n):
+        if pos in on_spine or rng.random() < 0.04:
+            continue                                      # (a few isolated tasks)
+        for _ in range(rng.choice([1, 1, 2, 3])):
+            if pos > 0 and (pos == n - 1 or rng.random() < 0.5):
+                pairs.append((order[rng.randrange(0, pos)], order[pos]))
+            else:
+                pairs.append((order[pos], order[rng.randrange(pos + 1, n)]))
+    rng.shuffle(pairs)
+    edges, nxt = [], {}
+    for a, b in pairs:
+        i = nxt.get(b, 0)
+        nxt[b] = i + 1
+        kw, ps = ("k%d" % i, None) if rng.random() < 0.3 else (None, i)
+        edges.append({"src": a, "out": rng.choice(outs[a]) if outs[a] else "undeclared", "dst": b, "kw": kw, "ps": ps})
+    return {"tasks": tasks, "edges": edges}, {"shapes": ["big-deep" if deep else "big"], "multi": 0, "names": style, "big": True}
 
 
 def _reach(case):
@@ -585,7 +631,7 @@ def shrink(case, kind):
     def fails(c):
         if time.time() > t_end or not in_quantifier(c):
             return False
-        f = oracle(c, run_real(c, timeout=0.5))
+        f = oracle(c, run_real(c, timeout=0.5 if len(c["tasks"]) <= 60 else 15.0))
         return f is not None and f[0] == kind
     cur = {"tasks": [list(t) for t in case["tasks"]], "edges": [dict(e) for e in case["edges"]]}
     changed = True
@@ -670,6 +716,8 @@ def _timeout_for(case, inq):
     longer one (lowered after a few, so that a looping implementation cannot stall the check)."""
     if not inq:
         return 0.4
+    if len(case["tasks"]) > 60:
+        return 90.0 if _timeouts_seen < 3 else 10.0      # the cubic python fallback needs ~1 s for 150 tasks on a quiet machine
     return TIMEOUT_S if _timeouts_seen < 3 else 0.5
 
 
@@ -689,7 +737,7 @@ def _evaluate(ctx, cases, compare=True):
         ctx.count("tasks", len(case["tasks"]))
         ctx.count("edges", len(case["edges"]))
         ctx.count("components", ncomp)
-        ctx.count("size:%s" % ("0" if not case["tasks"] else "1" if len(case["tasks"]) == 1 else "2-5" if len(case["tasks"]) <= 5 else "6-15" if len(case["tasks"]) <= 15 else "16-40" if len(case["tasks"]) <= 40 else ">40"))
+        ctx.count("size:%s" % ("0" if not case["tasks"] else "1" if len(case["tasks"]) == 1 else "2-5" if len(case["tasks"]) <= 5 else "6-15" if len(case["tasks"]) <= 15 else "16-40" if len(case["tasks"]) <= 40 else "41-79" if len(case["tasks"]) < 80 else "80-150"))
         for s in meta.get("shapes", []):
             ctx.count("shape:" + s)
         if "names" in meta:
@@ -700,6 +748,16 @@ def _evaluate(ctx, cases, compare=True):
             ctx.count("jobs_with_multi_output_tasks")
         if any(len(o) == 0 for _, o in case["tasks"]):
             ctx.count("jobs_with_output_less_tasks")
+            ctx.count("tasks_with_empty_output_schema", sum(1 for _, o in case["tasks"] if not o))
+            if any(not dict((t, o) for t, o in case["tasks"]).get(e["src"], ["x"]) for e in case["edges"]):
+                ctx.count("jobs_with_output_less_PRODUCERS")
+        if any(len(o) > 3 for _, o in case["tasks"]):
+            ctx.count("jobs_with_tasks_of_4-6_outputs")
+        if meta.get("big"):
+            ctx.count("big_jobs(80-150 tasks)" + (":oracle+real-pool-only" if meta.get("oracle_only") else ":model-compared"))
+            if "pre" in res:
+                dmax = max([c.depth for c in res["pre"].components] or [0])
+                ctx.count("big_jobs:max_depth_%s" % (">128" if dmax > 128 else ">60" if dmax > 60 else "<=60"))
         if any(e["ps"] is not None and e["ps"] < 0 for e in case["edges"]):
             ctx.count("jobs_with_negative_positions")
         if "pre" in res and any(len(c.nodes) == 1 for c in res["pre"].components):
@@ -723,19 +781,22 @@ def _evaluate(ctx, cases, compare=True):
                 if seen >= 3:
                     continue     # same kind already reported with shrunk witnesses
                 small = shrink(case, f[0])
-                r2 = run_real(small, timeout=TIMEOUT_S)
+                r2 = run_real(small, timeout=max(TIMEOUT_S, _timeout_for(small, True)))
                 f2 = oracle(small, r2)
                 if f2 is None or f2[0] != f[0]:
                     small, f2, r2 = case, f, res
                 ctx.violation(_signature(f2, small, r2), {"job": small}, f2[1])
     if not compare:
         return reals
-    lines = [json.dumps(case) for case, _ in cases]
+    # (jobs of more than ~100 tasks are judged by the oracle and re-run through the real pool only: the interpreted model
+    # needs minutes for them; a few of 80-100 tasks and depth > 60 ARE compared with the model)
+    sel = [i for i, (_, meta) in enumerate(cases) if not meta.get("oracle_only")]
+    lines = [json.dumps(cases[i][0]) for i in sel]
     outs = lean_drive("C16", lines)
     if len(outs) != len(lines):
         ctx.disagree("driver", {"n": len(lines)}, f"{len(outs)} output lines", f"{len(lines)} inputs")
         return reals
-    for (case, _), res, o in zip(cases, reals, outs):
+    for (case, _), res, o in zip([cases[i] for i in sel], [reals[i] for i in sel], outs):
         ctx.traces += 1
         a = canon_model(json.loads(o))
         b = canon_real(res)
@@ -847,14 +908,15 @@ def _real_pool_pass(ctx, cases, reals):
                 hung += 1
                 if hung > 2:
                     continue      # each costs a killed child; two are enough to see that the pool hangs as well
-            b = ch.run(case, "pool", 1.0 if expect_hang else 20.0)
+            big = len(case["tasks"]) > 60
+            b = ch.run(case, "pool", 1.0 if expect_hang else (120.0 if big else 20.0))
             ctx.count("rerun_with_real_thread_pool")
             if a != b:
                 ctx.disagree("thread-pool", {"job": case}, {"inline": _brief(a, first_diff(a, b) or "error")},
                              {"real ThreadPoolExecutor": _brief(b, first_diff(a, b) or "error")})
                 _judge_child_result(ctx, case, b, "real ThreadPoolExecutor")
             if k % 4 == 0 and "error" not in a:
-                c = ch.run(case, "coptrs", 20.0)
+                c = ch.run(case, "coptrs", 120.0 if big else 20.0)
                 ctx.count("rerun_with_coptrs_stand_in")
                 if a != c:
                     ctx.disagree("coptrs-conversion", {"job": case}, {"python fallback": _brief(a, first_diff(a, c) or "error")},
@@ -896,8 +958,19 @@ def correspond(ctx):
     cases = _corpus() + [(c, {}) for c in fixed_cases()]
     for i in range(n):
         cases.append(gen_mix(ctx.rng, i, max_tasks))
+    # big and deep jobs (audit D, C16 5(c)): compared with the model up to ~100 tasks, beyond that oracle + real pool
+    for i in range(ctx.budget(1, 4)):
+        cases.append(gen_big_case(ctx.rng, 80, ctx.budget(82, 100), deep=True))
+    for i in range(ctx.budget(2, 30)):
+        c, m = gen_big_case(ctx.rng, 80, 150, deep=(i % 3 != 2)) if i > 0 else gen_big_case(ctx.rng, 145, 150, deep=True, spine=(130, 140))
+        cases.append((c, dict(m, oracle_only=True)))
+    import os, sys, time
+    t0 = time.time()
     reals = _evaluate(ctx, cases)
+    t1 = time.time()
     _real_pool_pass(ctx, cases, reals)
+    if os.environ.get("EKW_C16_TIMING"):
+        print("[C16 timing] real+oracle+model %.1fs, real-pool pass %.1fs" % (t1 - t0, time.time() - t1), file=sys.stderr)
 
 
 def search(ctx, why):
